@@ -25,11 +25,11 @@ import (
 func init() {
 	simkit.Register(&simkit.Property{
 		ID: "C01", Level: "exploration", Bubble: true, Run: runC01,
-		Rule: "World C, one real receiver (validators, handlers, KeyShareHandler on pgsim) and simulated member senders: (n,t) with 1<=t<=n<=7 (sizes n<=4 over-sampled), 1-3 identities, a generated sequence of 3-14 share messages over the statement's alphabet {valid share of keyper i, share of keyper i computed for a different identity, share made with a different eon key, repeat of an earlier message, local trigger of the receiver}, delivered in Chooser-chosen order, 1-3 at a time so that validation and handling interleave at database round trips, with db.row_permute deciding the order in which the unordered share SELECT returns rows (= which t shares are aggregated first). After each batch reaches quiescence a ledger oracle (distinct senders whose fully valid message for identity x was delivered) checks: a key exists only if >= t valid shares are held; every stored key equals the trusted-dealer reference key, verifies against the eon key and decrypts a trial ciphertext; a handled message all of whose identities have >= t shares leaves keys for all of them; rejected messages leave no row. Non-trivial = threshold crossed with >=1 junk or duplicate message delivered before; distinct = distinct trace hashes among those.",
+		Rule: "World C, one real receiver (validators, handlers, KeyShareHandler on pgsim) and simulated member senders: (n,t) with 1<=t<=n<=7 (sizes n<=4 over-sampled), 1-3 identities, a generated sequence of 3-14 share messages over the statement's alphabet {valid share of keyper i, share of keyper i computed for a different identity, share made with a different eon key, repeat of an earlier message, local trigger of the receiver}, delivered in Chooser-chosen order, 1-3 at a time so that validation and handling interleave at database round trips, with db.row_permute deciding the order in which the unordered share SELECT returns rows (= which t shares are aggregated first). After each batch reaches quiescence a ledger oracle (distinct senders whose fully valid message for identity x was delivered) checks: a key exists only if >= t valid shares are held; every stored key equals the trusted-dealer reference key, verifies against the eon key and decrypts a trial ciphertext; a handled message all of whose identities have >= t shares leaves keys for all of them; rejected messages leave no row. The same sequence is also fed share by share, without any validator in front, to a bare epochkg.EpochKG of the receiver: key exactly at t distinct valid shares, reference key, junk refused whatever sender index it claims. Non-trivial = threshold crossed with >=1 junk or duplicate message delivered before; distinct = distinct trace hashes among those.",
 		Assumptions: []string{"'exactly when' is read at message granularity (the handler's unit of work is a message)", "pgsim row order hook models PostgreSQL's freedom to return unordered SELECT rows in any order"},
 		Real:        []string{"epochkghandler.DecryptionKeyShareHandler/DecryptionKeyHandler/KeyShareHandler", "epochkg.EpochKG", "p2p validators/handlers", "keyper/database sqlc", "pgx"},
 		Stub:        []string{"senders (harness builds their messages with shlib from trusted-dealer keys)", "libp2p (simnet)", "PostgreSQL (pgsim)"},
-		QuickRuns:   500, ThoroughRuns: 60000, QuickMinimize: 60, ThoroughMinimize: 300,
+		QuickRuns:   1500, ThoroughRuns: 60000, QuickMinimize: 60, ThoroughMinimize: 300,
 	})
 }
 
